@@ -1087,3 +1087,149 @@ package decimal128
 //@ returns (r)
 //@ ensures o <= 128 ==> u128(r) == shr(u128(n), o)
 //@ props C02 C09 C20
+
+// QuoWithMode (C02). V: the exact quotient magnitude |d/o| as a real; it is tied to the operands by
+// rs(V, E0) * coef(o) == coef(d) with E0 = bexp(d) - bexp(o) + 6176. The long-division loops keep
+// rs(V, exp) * O == sig * O + rem with 0 <= rem < O (O the divisor coefficient): sig is the
+// quotient so far in units of 10^exp and rem/O the part still to be divided.
+//@ func Decimal.QuoWithMode
+//@ uses rssteps=1,4,19 rsmono=0,1,40,75 timeout=60
+//@ returns (r)
+//@ logical V real
+//@ requires mode <= 5
+//@ requires !special(d) && !special(o) && coef(d) != 0 && coef(o) != 0 ==> V > 0 && rs(V, bexp(d) - bexp(o) + 6176) * coef(o) == coef(d)
+//@ ensures !special(d) && !special(o) && coef(o) != 0 ==> !isnan(r) && sign(r) == (sign(d) != sign(o))
+//@ ensures !special(d) && !special(o) && coef(o) != 0 && coef(d) == 0 ==> !special(r) && coef(r) == 0
+//@ ensures !special(d) && !special(o) && coef(d) != 0 && coef(o) != 0 && isinf(r) ==> Ovf(mode, sign(r), rs(V, 12287))
+//@ ensures !special(d) && !special(o) && coef(d) != 0 && coef(o) != 0 && !special(r) ==>
+//@    (rs(V, 0) < 0.1 && coef(r) == 0) || (rs(V, 0) >= 0.1 && RndOK(mode, sign(r), rs(V, bexp(r)), coef(r), bexp(r)))
+//@ ensures isnan(d) ==> r == d
+//@ ensures !isnan(d) && isnan(o) ==> r == o
+//@ ensures isinf(d) && isinf(o) ==> isnan(r) && !sign(r) && hi(r) == 0x7c00000000000000
+//@    && lo(r) == payloadOpQuo + 256*ite(sign(d), payloadValNegInfinite, payloadValPosInfinite) + 65536*ite(sign(o), payloadValNegInfinite, payloadValPosInfinite)
+//@ ensures isinf(d) && !special(o) ==> isinf(r) && sign(r) == (sign(d) != sign(o)) && lo(r) == 0
+//@ ensures !special(d) && isinf(o) ==> !special(r) && coef(r) == 0 && bexp(r) == 0 && sign(r) == (sign(d) != sign(o))
+//@ ensures !special(d) && !special(o) && coef(o) == 0 && coef(d) == 0 ==> isnan(r) && !sign(r) && hi(r) == 0x7c00000000000000
+//@    && lo(r) == payloadOpQuo + 256*ite(sign(d), payloadValNegZero, payloadValPosZero) + 65536*ite(sign(o), payloadValNegZero, payloadValPosZero)
+//@ ensures !special(d) && !special(o) && coef(o) == 0 && coef(d) != 0 ==> isinf(r) && sign(r) == (sign(d) != sign(o)) && lo(r) == 0
+//@ loop 1: invariant rs(V, exp) * oSig[0] == dSig64 && dSig64 >= 1 && exp <= bexp(d) - bexp(o) + 6176
+//@ loop 1: invariant exp >= bexp(d) - bexp(o) + 6176 - 75
+//@ loop 1: decreases 18446744073709551616 - dSig64
+//@ loop 2: invariant rs(V, exp) * oSig[0] == dSig64 && dSig64 >= 1 && exp <= bexp(d) - bexp(o) + 6176
+//@ loop 2: invariant exp >= bexp(d) - bexp(o) + 6176 - 75
+//@ loop 2: decreases 18446744073709551616 - dSig64
+//@ loop 3: invariant rs(V, exp) * oSig[0] == sig64 * oSig[0] + rem64 && rem64 < oSig[0] && carry == 0 && exp <= bexp(d) - bexp(o) + 6176
+//@ loop 3: invariant exp >= bexp(d) - bexp(o) + 6176 - 75
+//@ loop 4: invariant rs(V, exp) * oSig[0] == sig64 * oSig[0] + rem64 && rem64 != 0 && carry == 0 && exp <= bexp(d) - bexp(o) + 6176
+//@ loop 4: invariant exp >= bexp(d) - bexp(o) + 6176 - 75
+//@ loop 4: decreases 18446744073709551616 - rem64
+//@ loop 5: invariant rs(V, exp) * oSig[0] == sig64 * oSig[0] + rem64 && rem64 != 0 && carry == 0 && exp <= bexp(d) - bexp(o) + 6176
+//@ loop 5: invariant exp >= bexp(d) - bexp(o) + 6176 - 75
+//@ loop 5: decreases 18446744073709551616 - rem64
+//@ loop 6: invariant rs(V, exp) * u128(oSig) == u128(dSig) && u128(dSig) >= 1 && exp <= bexp(d) - bexp(o) + 6176
+//@ loop 6: invariant exp >= bexp(d) - bexp(o) + 6176 - 75
+//@ loop 6: decreases W*W - u128(dSig)
+//@ loop 7: invariant rs(V, exp) * u128(oSig) == u128(dSig) && u128(dSig) >= 1 && exp <= bexp(d) - bexp(o) + 6176
+//@ loop 7: invariant exp >= bexp(d) - bexp(o) + 6176 - 75
+//@ loop 7: decreases W*W - u128(dSig)
+//@ loop 8: isolate
+//@ loop 8: invariant !special(d) && !special(o) && coef(d) != 0 && coef(o) != 0 && u128(oSig) != 0 && u128(oSig) <= M
+//@ loop 8: invariant 0 <= trunc
+//@ loop 8: invariant trunc <= 1
+//@ loop 8: invariant u128(rem) < u128(oSig)
+//@ loop 8: invariant exp <= bexp(d) - bexp(o) + 6176 + 1
+//@ loop 8: invariant exp >= bexp(d) - bexp(o) + 6176 - 75
+//@ loop 8: invariant u128(sig) <= rs(V, exp)
+//@ loop 8: invariant rs(V, exp) < u128(sig) + 1
+//@ loop 8: invariant (trunc == 0 && u128(rem) == 0 ==> rs(V, exp) == u128(sig))
+//@ loop 8: invariant ((trunc != 0 || u128(rem) != 0) ==> rs(V, exp) > u128(sig))
+//@ loop 8: invariant (sig[1] <= 0x27fffffffffff ==> trunc == 0 && rs(V, exp) * u128(oSig) == u128(sig) * u128(oSig) + u128(rem) && exp <= bexp(d) - bexp(o) + 6176)
+//@ loop 8: invariant (trunc != 0 ==> sig[1] > 0x27fffffffffff)
+//@ loop 9: invariant trunc == 0 && u128(rem) != 0 && rs(V, exp) * u128(oSig) == u128(sig) * u128(oSig) + u128(rem) && exp <= bexp(d) - bexp(o) + 6176
+//@ loop 9: invariant exp >= bexp(d) - bexp(o) + 6176 - 75
+//@ loop 9: decreases W*W - u128(rem)
+//@ loop 10: invariant trunc == 0 && u128(rem) != 0 && rs(V, exp) * u128(oSig) == u128(sig) * u128(oSig) + u128(rem) && exp <= bexp(d) - bexp(o) + 6176
+//@ loop 10: invariant exp >= bexp(d) - bexp(o) + 6176 - 75
+//@ loop 10: decreases W*W - u128(rem)
+//@ loop 11: invariant 0 <= trunc
+//@ loop 11: invariant trunc <= 1
+//@ loop 11: invariant u128(rem) < u128(oSig)
+//@ loop 11: invariant exp <= bexp(d) - bexp(o) + 6176 + 1
+//@ loop 11: invariant u192(sig192) < 2*W*W
+//@ loop 11: invariant exp >= bexp(d) - bexp(o) + 6176 - 75
+//@ loop 11: invariant u192(sig192) <= rs(V, exp)
+//@ loop 11: invariant rs(V, exp) < u192(sig192) + 1
+//@ loop 11: invariant (trunc == 0 && u128(rem) == 0 ==> rs(V, exp) == u192(sig192))
+//@ loop 11: invariant ((trunc != 0 || u128(rem) != 0) ==> rs(V, exp) > u192(sig192))
+//@ loop 11: invariant (sig192[2] == 0 && sig192[1] <= 0x27fffffffffff ==> trunc == 0 && rs(V, exp) * u128(oSig) == u192(sig192) * u128(oSig) + u128(rem) && exp <= bexp(d) - bexp(o) + 6176)
+//@ loop 11: invariant (sig192[2] != 0 ==> trunc == 0)
+//@ loop 11: invariant (trunc != 0 ==> sig192[2] == 0 && sig192[1] > 0x27fffffffffff)
+//@ loop 11: decreases u192(sig192)
+//@ apply loop 8: div_bounds(rs(V, exp), u128(sig), u128(rem), u128(oSig))
+//@ apply loop 11: div_bounds(rs(V, exp), u192(sig192), u128(rem), u128(oSig))
+//@ apply before "exp := (dExp - exponentBias) - (oExp - exponentBias) + exponentBias": quo_lower(rs(V, bexp(d) - bexp(o) + 6176), u128(oSig), u128(dSig), M)
+//@ apply before "dSig64 *= 10_000": quo_upper(rs(V, exp), 0, dSig64, oSig[0])
+//@ apply before "dSig64 *= 10"#2: quo_upper(rs(V, exp), 0, dSig64, oSig[0])
+//@ apply before "rem64 *= 10_000": quo_upper(rs(V, exp), sig64, rem64, oSig[0])
+//@ apply before "rem64 *= 10"#2: quo_upper(rs(V, exp), sig64, rem64, oSig[0])
+//@ apply before "dSig = dSig.mul64(10_000)": quo_upper(rs(V, exp), 0, u128(dSig), u128(oSig))
+//@ apply before "dSig = dSig.mul64(10)": quo_upper(rs(V, exp), 0, u128(dSig), u128(oSig))
+//@ apply before "rem = rem.mul64(10_000)": quo_upper(rs(V, exp), u128(sig), u128(rem), u128(oSig))
+//@ apply before "rem = rem.mul64(10)": quo_upper(rs(V, exp), u128(sig), u128(rem), u128(oSig))
+//@ apply before "exp -= 4": scale_rel(prev(rs(V, exp)), rs(V, exp - 4), prev(0), 0, prev(dSig64), dSig64, oSig[0], 10000)
+//@ apply before "exp--": scale_rel(prev(rs(V, exp)), rs(V, exp - 1), prev(0), 0, prev(dSig64), dSig64, oSig[0], 10)
+//@ apply before "exp -= 4"#2: scale_rel(prev(rs(V, exp)), rs(V, exp - 4), prev(sig64), sig64, prev(rem64), rem64, oSig[0], 10000)
+//@ apply before "exp--"#2: scale_rel(prev(rs(V, exp)), rs(V, exp - 1), prev(sig64), sig64, prev(rem64), rem64, oSig[0], 10)
+//@ apply before "exp -= 4"#3: scale_rel(prev(rs(V, exp)), rs(V, exp - 4), prev(0), 0, prev(u128(dSig)), u128(dSig), u128(oSig), 10000)
+//@ apply before "exp--"#3: scale_rel(prev(rs(V, exp)), rs(V, exp - 1), prev(0), 0, prev(u128(dSig)), u128(dSig), u128(oSig), 10)
+//@ apply before "exp -= 4"#4: scale_rel(prev(rs(V, exp)), rs(V, exp - 4), prev(u128(sig)), u128(sig), prev(u128(rem)), u128(rem), u128(oSig), 10000)
+//@ apply before "exp--"#4: scale_rel(prev(rs(V, exp)), rs(V, exp - 1), prev(u128(sig)), u128(sig), prev(u128(rem)), u128(rem), u128(oSig), 10)
+//@ assert before "sig = uint128{sig64, carry}": rs(V, exp) * u128(oSig) == (sig64 + W * carry) * u128(oSig) + rem64 && rem64 < oSig[0] && carry <= 1
+//@ props C02 C15 C19 C20
+
+// x * ov == s * ov + rem with 0 <= rem < ov pins x between s and s + 1 (cancellation of the positive divisor)
+//@ lemma div_bounds
+//@ forall x real, s int, rem int, ov int
+//@ hyp ov > 0 && 0 <= rem && rem < ov && x * ov == s * ov + rem
+//@ holds s <= x && x < s + 1 && (rem == 0 ==> x == s) && (rem != 0 ==> x > s)
+//@ props C02 C03
+
+//@ lemma quo_lower
+//@ forall x0 real, ov int, dd int, bb int
+//@ hyp x0 > 0 && ov >= 1 && ov <= bb && dd >= 1 && x0 * ov == dd
+//@ holds x0 * bb >= 1
+//@ props C02 C03
+
+//@ lemma quo_upper
+//@ forall x real, s int, rem int, ov int
+//@ hyp ov >= 1 && rem >= 0 && s >= 0 && x * ov == s * ov + rem
+//@ holds s <= x && x <= s + rem
+//@ props C02 C03
+
+//@ lemma scale_rel
+//@ forall x real, x2 real, s int, s2 int, rem int, rem2 int, ov int, c int
+//@ hyp x * ov == s * ov + rem && x2 == c * x && s2 == c * s && rem2 == c * rem
+//@ holds x2 * ov == s2 * ov + rem2
+//@ props C02 C03
+
+//@ func Decimal.Quo
+//@ returns (r)
+//@ logical V real
+//@ requires DefaultRoundingMode <= 5
+//@ requires !special(d) && !special(o) && coef(d) != 0 && coef(o) != 0 ==> V > 0 && rs(V, bexp(d) - bexp(o) + 6176) * coef(o) == coef(d)
+//@ ensures !special(d) && !special(o) && coef(o) != 0 ==> !isnan(r) && sign(r) == (sign(d) != sign(o))
+//@ ensures !special(d) && !special(o) && coef(d) != 0 && coef(o) != 0 && isinf(r) ==> Ovf(DefaultRoundingMode, sign(r), rs(V, 12287))
+//@ ensures !special(d) && !special(o) && coef(d) != 0 && coef(o) != 0 && !special(r) ==>
+//@    (rs(V, 0) < 0.1 && coef(r) == 0) || (rs(V, 0) >= 0.1 && RndOK(DefaultRoundingMode, sign(r), rs(V, bexp(r)), coef(r), bexp(r)))
+//@ props C02 C19 C20
+
+//@ func Decimal.Mul
+//@ returns (r)
+//@ logical V real
+//@ requires DefaultRoundingMode <= 5
+//@ requires !special(d) && !special(o) && coef(d) != 0 && coef(o) != 0 ==> V > 0 && rs(V, bexp(d) + bexp(o) - 6176) == coef(d) * coef(o)
+//@ ensures !special(d) && !special(o) ==> !isnan(r) && sign(r) == (sign(d) != sign(o))
+//@ ensures !special(d) && !special(o) && coef(d) != 0 && coef(o) != 0 && isinf(r) ==> Ovf(DefaultRoundingMode, sign(r), rs(V, 12287))
+//@ ensures !special(d) && !special(o) && coef(d) != 0 && coef(o) != 0 && !special(r) ==>
+//@    (rs(V, 0) < 0.1 && coef(r) == 0) || (rs(V, 0) >= 0.1 && RndOK(DefaultRoundingMode, sign(r), rs(V, bexp(r)), coef(r), bexp(r)))
+//@ props C02 C19 C20
